@@ -9,7 +9,10 @@ import subprocess
 import vlib
 from engines import register
 
-QINV = "UpperBound UnlimitedExact NoHiddenExactWindow Monotone SomePathOK SomePathMultiOK EmitQ"
+QINV0 = "UpperBound UnlimitedExact NoHiddenExactWindow Monotone SomePathOK SomePathMultiOK EmitQ"
+# AllInWindow (the repaired models never leave their window) is asserted on the bounds where TLC has established it; on the
+# sliced 5-target runs a disagreement is emitted and replayed instead (a model counterexample alone is never an error)
+QINV = QINV0.replace("UnlimitedExact", "UnlimitedExact AllInWindow")
 GINV = "GcModelSafe GcSiblingOnly GcModelClosed EmitGc"
 
 
@@ -45,17 +48,18 @@ CLAIM23 = dict(
     text="GraphQueries.tla defines, over the resolved dependency graph (declared deps after require/provide), the distance with "
          "0-cost edges inside a rule family (a rule and its hidden _x#tag sub-targets) under three readings (every edge 1 / directed "
          "with free family edges / families as single nodes) and from them the window [must, may] of targets that `deps`/`revdeps` "
-         "at level L may print, plus reachability for `somepath`; and algorithm-level models of deps.go (DFS, shared done map), "
-         "reverse_deps.go (FIFO, dedup on push, 0/1 costs) and somepath.go (DFS, per-destination shared seen). TLC enumerates every "
+         "at level L may print, plus reachability for `somepath`; and algorithm-level models of deps.go (DFS, shared map of the shallowest expansion level), "
+         "reverse_deps.go (FIFO, re-queued at a smaller depth, 0/1 costs) and somepath.go (DFS, per-destination shared seen). TLC enumerates every "
          "labelled DAG on 3 targets and on 4 targets (quick: a seeded half of the 4-target DAGs with at most one hidden sub-target; "
-         "thorough: all, plus seeded slices on 5 targets), three hand-picked 5-target witnesses, x every assignment of hidden sub-targets (x require/provide x naming order on 3 targets), checks the facts that hold of the models as invariants and emits, per "
+         "thorough: all, plus seeded slices on 5 targets), every 4-target graph with a chain through two hidden sub-targets of one rule, three hand-picked 5-target witnesses, x every assignment of hidden sub-targets (x require/provide x naming order on 3 targets), checks the facts that hold of the models as invariants and emits, per "
          "graph, the windows and every query where a model leaves its window. Every graph is rebuilt as a real core.BuildGraph and "
          "the real query.Deps, query.ReverseDeps and query.SomePath are run for every source, level (-1, 0..N-2), --hidden setting "
          "and ordered pair; the verdict is the window / reachability + genuine-path relation, never equality with the model.",
     note="Weakest reading, stated in the evidence: without --hidden the own rule is optional and a target counts as required only if "
          "it is within L by directed paths, as allowed if within L with families collapsed; with --hidden required within L counting "
          "every edge, allowed within L with free family edges. Graphs where a hidden sub-target depends on its own rule are outside "
-         "the domain. Known findings: deps (first visit deeper) and revdeps (first push deeper) miss targets at limited levels. Thorough also replays "
+         "the domain. The deps (first visit deeper) and revdeps (first push deeper) defects found by this check are repaired in /repo; the "
+         "models follow the repaired code and the pre-repair algorithms are kept behind the Flaws constant. Thorough also replays "
          "a sample through the real `plz query` binary. Exhaustive only within the bounds; "
          "trusted: TLC, JSON decoding, the harness's graph construction and label parsing.",
     technique="TLA+ spec GraphQueries.tla model-checked with TLC; TLC-enumerated cases with spec-computed expectations replayed "
@@ -204,24 +208,27 @@ def run23(ctx):
         base = dict(provides=False, upper=False, emit="all", spec="SpecQ", invs=QINV)
         cases = gen(ctx, "GEN_GraphQueries_3full.cfg", n=3, maxhidden=3, **dict(base, provides=True, upper=True))
         cases += gen(ctx, "GEN_GraphQueries_witness.cfg", n=5, maxhidden=4, **dict(base, spec="SpecW"))
+        # every 4-target graph with a chain through two hidden sub-targets of ONE rule (_x#a -> _x#b -> other rule):
+        # the edge between hidden siblings must cost nothing
+        cases += gen(ctx, "GEN_GraphQueries_4chain.cfg", n=4, maxhidden=2, minhidden=2, shape="chain", **base)
         if ctx.quick:
             # half of the 543 labelled DAGs on 4 targets (which half follows the seed) x at most one hidden sub-target
             cases += gen(ctx, "GEN_GraphQueries_4h1.cfg", n=4, maxhidden=1, k=2, i=ctx.seed % 2, **base)
         else:
             cases += gen(ctx, "GEN_GraphQueries_4.cfg", n=4, maxhidden=4, **base)
-            cases += gen(ctx, "GEN_GraphQueries_4up.cfg", n=4, maxhidden=2, k=13, i=ctx.seed % 13, **dict(base, provides=True, upper=True))
-            cases += gen(ctx, "GEN_GraphQueries_5s.cfg", n=5, maxhidden=2, k=151, i=ctx.seed % 151, **base)
+            cases += gen(ctx, "GEN_GraphQueries_4up.cfg", n=4, maxhidden=2, k=13, i=ctx.seed % 13, **dict(base, provides=True, upper=True, invs=QINV0))
+            cases += gen(ctx, "GEN_GraphQueries_5s.cfg", n=5, maxhidden=2, k=151, i=ctx.seed % 151, **dict(base, invs=QINV0))
             # the wide search for the revdeps FIFO flaw: 5 targets, exactly one hidden, only the revdeps queries,
             # only the graphs where the model leaves its window are emitted (and replayed)
             cases += gen(ctx, "GEN_GraphQueries_5rev.cfg", n=5, maxhidden=1, minhidden=1, focus="rev", k=17, i=ctx.seed % 17,
-                         **dict(base, emit="diff"))
-            # design level: TLC must refute "the models stay inside the window" (the recorded flaws); if it no longer
-            # does, the spec's models have drifted from the recorded findings
-            r = gen(ctx, "MC_GraphQueries_flaw.cfg", allow_violation=True, n=4, maxhidden=0,
+                         **dict(base, emit="diff", invs=QINV0))
+            # design level: the repaired models satisfy AllInWindow (an invariant of every run above); the algorithms as
+            # they were before the repairs (Flaws) must still be refuted by TLC
+            r = gen(ctx, "MC_GraphQueries_flaw.cfg", allow_violation=True, n=4, maxhidden=0, flaws=("deps", "rev"),
                     **dict(base, emit="none", invs="AllInWindow"))
-            ctx.extra["design_counterexample_AllInWindow"] = "found" if r.invariant else "NOT FOUND"
+            ctx.extra["design_counterexample_AllInWindow_before_repair"] = "found" if r.invariant else "NOT FOUND"
             if not r.invariant:
-                ctx.drift("TLC no longer refutes AllInWindow on 4 targets: the deps model lost the recorded flaw")
+                ctx.drift("TLC no longer refutes AllInWindow for the pre-repair deps model on 4 targets")
         ctx.exhaustive = True
     for i, c in enumerate(cases):
         c["id"] = i
